@@ -99,15 +99,16 @@ function genObject(rng, d, names, forceKey) {
   }
   return [A("object"), plist, indexed];
 }
-function genDisc(rng, d, names) {
-  const key = rng.pick(["t", "kind", "type"]);
-  const nv = 2 + rng.below(2);
+export function genDisc(rng, d, names, force = null) {
+  // force = {key, tags}: a second union over the same discriminator and the same tags (different bodies)
+  const key = force ? force.key : rng.pick(["t", "kind", "type"]);
+  const nv = force ? force.tags.length : 2 + rng.below(2);
   const pool = ["a", "b", "c", "d", "constructor", "toString", "__proto__"];
   const variants = [];
   const used = new Set();
   for (let i = 0; i < nv; i++) {
-    let vals = [];
-    const cnt = rng.chance(1, 5) ? 2 : 1;
+    let vals = force ? [force.tags[i]] : [];
+    const cnt = force ? 1 : rng.chance(1, 5) ? 2 : 1;
     while (vals.length < cnt) { const s = rng.pick(pool); if (!used.has(s) || rng.chance(1, 10)) { used.add(s); vals.push(s); } }
     vals = [...new Set(vals)];
     const dt = vals.length === 1 ? [A("const"), [A("s"), vals[0]]] : [A("consts"), ...vals.map((s) => [A("s"), s])];
